@@ -43,7 +43,7 @@ def run(chk):
     mcases = []
     for c, a in zip(cases, ci):
         t = c.split()
-        evs = [x.split(":")[0] for x in a.split()] if not a.startswith(("PANIC", "CRASH", "TIMEOUT")) else []
+        evs = [x.split(":")[0] for x in a.split()] if not a.startswith(("PANIC", "CRASH", "TIMEOUT", "HANG")) else []
         mcases.append("inflight %s %s %s" % (t[1], t[2], " ".join(evs)))
     cm = run_model(mcases)
     for c, mc, a, b in zip(cases, mcases, ci, cm):
@@ -52,7 +52,7 @@ def run(chk):
         mode, maxn = t[1], int(t[2])
         chk.count("mode:" + mode)
         chk.count("max:%d" % maxn)
-        if a.startswith(("PANIC", "CRASH", "TIMEOUT")):
+        if a.startswith(("PANIC", "CRASH", "TIMEOUT", "HANG")):
             chk.monitor_fail("inflight layer panicked / hung", dict(case=c, impl=a))
             continue
         obs = a.split()
@@ -87,7 +87,7 @@ def run(chk):
         if waited:
             chk.nontriv(c)
         if a != b:
-            chk.disagree(mc[:600], a[:600], b[:600], "layers/inflight")
+            chk.disagree(mc, a[:600], b[:600], "layers/inflight")
     chk.sample(dict(case=cases[0][:300], impl=ci[0][:300], model=cm[0][:300]))
     chk.assumptions += ["tokio::sync::Semaphore is FIFO and hands a released permit to the queue head (modelled in Inflight.p_release; exercised, not proved)",
                         "each observation is taken after 50 yields on a current-thread runtime (quiescence)"]
